@@ -8,6 +8,7 @@ import (
 	"testing"
 
 	"github.com/cloudflare/circl/internal/verifmc"
+	"github.com/cloudflare/circl/internal/verifref/c15hist"
 	"github.com/cloudflare/circl/internal/verifref/keccak"
 )
 
@@ -29,6 +30,7 @@ func c15Lengths() []int {
 // TurboShakeSum128/256) on every length of the alphabet and every output length of the
 // alphabet, against ref/keccak.
 func TestVerifC15_lengths(t *testing.T) {
+	c15SkipNonDefault(t)
 	r := verifmc.Start(t, "C15", "lengths")
 	defer r.Finish()
 	if err := keccak.SelfTest(); err != nil {
@@ -70,6 +72,7 @@ func TestVerifC15_lengths(t *testing.T) {
 			jobs = append(jobs, job{f, l})
 		}
 	}
+	var coll c15hist.Collector
 	verifmc.ParallelFor(len(jobs), func(i int) {
 		f, L := fns[jobs[i].f], lens[jobs[i].l]
 		m := msg[:L]
@@ -89,11 +92,11 @@ func TestVerifC15_lengths(t *testing.T) {
 			r.Eval(1)
 			r.Distinct(id)
 			if p, what := verifmc.Try(func() { f.call(got, m) }); p {
-				r.Violation("C15|sha3."+f.name+"|panic:"+verifmc.PanicClass(what), id, id+": "+what, nil)
+				coll.Add(i, o, "C15|sha3."+f.name+"|panic:"+verifmc.PanicClass(what), id, id+": "+what, nil)
 				continue
 			}
 			if !bytes.Equal(got, want[:o]) {
-				r.Violation("C15|sha3."+f.name+"|output-mismatch|"+c15LenClass(L, f.rate), id,
+				coll.Add(i, o, "C15|sha3."+f.name+"|output-mismatch|"+c15LenClass(L, f.rate), id,
 					fmt.Sprintf("%s: got %s want %s", id, verifmc.Hex(got), verifmc.Hex(want[:o])),
 					map[string]interface{}{"function": f.name, "len": L, "out": o})
 			}
@@ -102,6 +105,7 @@ func TestVerifC15_lengths(t *testing.T) {
 			}
 		}
 	})
+	coll.Flush(r)
 	r.Sample(map[string]interface{}{"function": "ShakeSum128", "len": 167, "out": 339})
 	r.Sample(map[string]interface{}{"function": "TurboShakeSum128[D=7f]", "len": 73729, "out": 32})
 	r.RequireCounter("boundary_lengths_hit", 20)
@@ -129,6 +133,7 @@ func c15LenClass(L, rate int) string {
 // at most three Write chunks (all cut pairs) and every partition of 2*rate+2 output bytes into
 // at most three Read chunks, plus byte-at-a-time input and output; against ref/keccak.
 func TestVerifC15_partitions(t *testing.T) {
+	c15SkipNonDefault(t)
 	r := verifmc.Start(t, "C15", "partitions")
 	defer r.Finish()
 	if err := keccak.SelfTest(); err != nil {
@@ -157,6 +162,7 @@ func TestVerifC15_partitions(t *testing.T) {
 			jobs = append(jobs, job{vi, 1, i})
 		}
 	}
+	var coll c15hist.Collector
 	verifmc.ParallelFor(len(jobs), func(k int) {
 		jb := jobs[k]
 		v := vs[jb.v]
@@ -189,9 +195,9 @@ func TestVerifC15_partitions(t *testing.T) {
 					}
 				})
 				if p {
-					r.Violation("C15|sha3."+v.name+"|partition-in|panic:"+verifmc.PanicClass(what), id, id+": "+what, nil)
+					coll.Add(k, j, "C15|sha3."+v.name+"|partition-in|panic:"+verifmc.PanicClass(what), id, id+": "+what, nil)
 				} else if !bytes.Equal(got, want) {
-					r.Violation("C15|sha3."+v.name+"|partition-in|output-mismatch", id,
+					coll.Add(k, j, "C15|sha3."+v.name+"|partition-in|output-mismatch", id,
 						fmt.Sprintf("%s: writes of %d, %d, %d bytes: got %s want %s", id, i, j-i, L-j, verifmc.Hex(got), verifmc.Hex(want)),
 						map[string]interface{}{"variant": v.name, "cuts": []int{i, j}, "len": L})
 				}
@@ -214,14 +220,15 @@ func TestVerifC15_partitions(t *testing.T) {
 				_, _ = s.Read(got[j:])
 			})
 			if p {
-				r.Violation("C15|sha3."+v.name+"|partition-out|panic:"+verifmc.PanicClass(what), id, id+": "+what, nil)
+				coll.Add(k, j, "C15|sha3."+v.name+"|partition-out|panic:"+verifmc.PanicClass(what), id, id+": "+what, nil)
 			} else if !bytes.Equal(got, want) {
-				r.Violation("C15|sha3."+v.name+"|partition-out|output-mismatch", id,
+				coll.Add(k, j, "C15|sha3."+v.name+"|partition-out|output-mismatch", id,
 					fmt.Sprintf("%s: reads of %d, %d, %d bytes: got %s want %s", id, i, j-i, N-j, verifmc.Hex(got), verifmc.Hex(want)),
 					map[string]interface{}{"variant": v.name, "cuts": []int{i, j}, "len": L})
 			}
 		}
 	})
+	coll.Flush(r)
 	// byte at a time, both sides
 	for _, v := range vs {
 		L := 2*v.rate + 2
